@@ -137,6 +137,39 @@ Prop_C05(S) ==
   /\ (IsAdmin(S) /\ S.in.rpc = "ReplaceDepositForBurn" /\ S.in.signer = "AUTH" /\ S.fullReq =>
         S.req = <<ReplaceReq(S.in)>>)
 
+(* C07 Traffic not addressed to the orbiter is handled as if the middleware were absent *)
+Untouched(S, who) ==
+  /\ OrbGroups(S.post) = OrbGroups(S.pre)
+  /\ (who \notin {"orb", "dust"} => S.post.bal["orb"] = S.pre.bal["orb"] /\ S.post.bal["dust"] = S.pre.bal["dust"])
+Prop_C07(S) ==
+  /\ (IsRecv(S) /\ ~ForOrbiter(S.in) =>
+        /\ (S.hasDiff => S.diff.ackEq /\ S.diff.eventsEq /\ S.diff.stateEq)
+        /\ Untouched(S, IF RcvDecodes(S.in.rcv) THEN RcvAcct(S.in.rcv) ELSE "none"))
+  /\ (S.in.t \in {"ackpkt", "timeout"} =>
+        /\ (S.hasDiff => S.diff.ackEq /\ S.diff.eventsEq /\ S.diff.stateEq /\ S.diff.appVersionEq)
+        /\ Untouched(S, IF RcvDecodes(S.in.who) THEN RcvAcct(S.in.who) ELSE "none"))
+
+(* C13 Statistics queries and pagination are faithful views of the ledger *)
+Flatten(pages) == FoldLeft(LAMBDA acc, p : acc \o p.items, <<>>, pages)
+Prop_C13(S) == S.in.t = "query" =>
+  LET q == S.in.q  P == S.pages  items == Flatten(P) IN
+  IF q.by = "direct" THEN
+     /\ Len(P) = 1
+     /\ (DirectHit(S.post, q) = {} => P[1].err /\ P[1].items = <<>>)               \* returned exactly when non-zero
+     /\ (DirectHit(S.post, q) # {} => ~P[1].err /\ ToSet(P[1].items) = DirectHit(S.post, q) /\ Len(P[1].items) = 1)
+  ELSE IF q.pid \notin ProtoNames THEN Len(P) = 1 /\ P[1].err
+  ELSE LET M == Matching(S.post, q) IN
+     /\ \A i \in DOMAIN P : ~P[i].err
+     /\ ToSet(items) = M                                                           \* no omission, no foreign entry
+     /\ Len(items) = Cardinality(M)                                                \* no duplicate
+     /\ \A i \in DOMAIN P : Len(P[i].items) <= EffLimit(q)
+     /\ \A i \in 1..(Len(P) - 1) : Len(P[i].items) = EffLimit(q) /\ P[i].hasNext     \* full pages until the last
+     /\ ~P[Len(P)].hasNext
+     /\ (q.countTotal => P[1].total = Cardinality(M))                               \* correct total
+
+(* C19 Processing is deterministic, including committed error text *)
+Prop_C19(S) == S.hasDig => \A i \in DOMAIN S.peers : S.peers[i] = S.dig
+
 (* C08 A paused protocol or destination is never forwarded to; others are unaffected *)
 Blocked(s, dst) == dst[1] \in s.pProto \/ dst \in s.pCC
 ActionPaused(s, in) == \E i \in DOMAIN in.acts : ActOf(in.acts[i].id) \in s.pAct
@@ -227,6 +260,33 @@ Prop_C18(S) ==
   /\ (~(IsAdmin(S) /\ S.in.rpc = "UpdateParams" /\ S.ok) /\ ~ReplacesState(S) =>
         Limit(S.post) = Limit(S.pre))
   /\ (S.hasQ => S.q.qParamsOk /\ S.q.qParams = Limit(S.post))
+
+(* C15 Only well-formed payloads are accepted, and encoding round-trips *)
+\* the parser decides the STRUCTURE (root key, one forwarding, ids, registered attribute types, no
+\* unknown fields); attribute VALUES (recipients, fee entries) are validated later by controllers
+StructuralPaths == {"root", "orbiter", FW, FW \o ".protocol_id", FW \o ".attributes", FW \o ".attributes.@type",
+                    PA, A0, A0 \o ".id", A0 \o ".attributes", A0 \o ".attributes.@type"} \cup UnknownPaths
+Prop_C15(S) == IsRecv(S) /\ S.hasParse =>
+  /\ (S.in.mk = "PAYLOAD" /\ S.parse.ok => ParseOK(S.in) /\ PayloadValid(S.in))     \* accepted only if well-formed
+  /\ (S.in.mk = "MUT" /\ S.in.aid \in StructuralPaths /\ S.parse.ok => ~MustRefuse(S.in))
+  /\ S.parse.pure                                                                   \* parsing is a function of the memo
+  /\ (S.rt.built => S.rt.parseOk /\ S.rt.equal /\ S.rt.remarshalEqual)              \* constructors round-trip
+
+(* C16 Only returning Noble-native tokens are processed, under the coin ICS-20 credits *)
+\* a one-hop voucher whose prefix is the packet's source port and channel, over a native base
+ReturningNative(in) == in.dn = "RET"
+Prop_C16(S) == IsOrbiterPacket(S) /\ S.in.dn # "L" =>
+  /\ (~ReturningNative(S.in) => ~S.ok)
+  /\ (S.ok /\ S.hasCredit =>
+        /\ Len(S.credit) = 1
+        /\ LET c == S.credit[1]  src == <<"IBC", SrcCp(S.in.chan)>> IN
+           /\ (S.hasTrace /\ Len(S.perAction) > 0 => S.perAction[1].cin = [d |-> c.d, n |-> c.a])     \* acted on
+           /\ (S.hasTrace /\ Len(S.perAction) = 0 /\ Len(S.req) = 1 =>
+                 S.req[1].amt = c.a /\ (S.req[1].route # "HYP" => S.req[1].denom = c.d))              \* forwarded
+           /\ \E e \in S.post.amt :                                                                 \* recorded
+                 /\ <<e.sp, e.sc>> = src /\ e.denom = c.d
+                 /\ LET old == {f \in S.pre.amt : AmtKeyOf(f) = AmtKeyOf(e)} IN
+                      e.in - (IF old = {} THEN 0 ELSE (CHOOSE f \in old : TRUE).in) = c.a)
 
 (* C20 Cross-chain identifiers are canonical and mean what transfers record *)
 Prop_C20(S) == S.in.t = "ident" =>
